@@ -295,6 +295,16 @@ def run(ctx):
     rep.rule('R13.3', 'complement siblings: searchcomplement / biselect / facet')
     rep.rule('R13.7', 'search applies the pattern to the text of one cell at a time')
     ctx.attempt(r137, ctx, rep)
+    from .common import module_state_mutations as _modstate
+    rep.rule('R13.10', 'what a selection applies depends on its arguments alone: the selection code keeps no module-level memo (compiled patterns, predicates) that an earlier call with other arguments could have filled')
+    _nm = 0
+    for _fn in ctx.functions(['petl.transform.selects', 'petl.transform.regex']):
+        for _n, _g in (ctx.attempt(_modstate, _fn) or []):
+            _nm += 1
+            rep.violated('R13.10', _fn, norm(_n)[:60], 'the module-level object `%s` is changed here: what a later call computes can '
+                         'depend on an earlier call (e.g. a program compiled for the same pattern with other flags is reused)' % _g, _n)
+    if not _nm:
+        rep.held('R13.10', ('petl.transform.selects', '*'), 'no module-level state is written', '', None)
     from .common import check_selector_truth as _seltruth
     rep.rule('R13.9', 'a field selector (name or position; 0 and \'\' are valid) is never tested for truth')
     ctx.floor('selector_functions', ctx.attempt(_seltruth, ctx, rep, 'R13.9', ctx.functions(
@@ -309,13 +319,19 @@ def run(ctx):
     ctx.report = _sub
     try:
         _c04.r42(ctx, _sub)
+        _mark = len(_sub.obligations)
+        # ... and only if == on Comparable agrees with the ordering (neither < nor > exactly when ==): selecteq / selectne,
+        # the boundary rows of selectge / selectlt and selectrange* (C04 R4.1)
+        _c04.r41(ctx, _sub)
     finally:
         ctx.report = _saved
     _n = 0
-    for _o in _sub.obligations:
+    for _i, _o in enumerate(_sub.obligations):
         if _o.module == 'petl.comparison':
             _n += 1
-            rep.add('R13.8', (_o.module, _o.qualname), _o.construct, _o.status, _o.message, _o.lineno, _o.detail)
+            rep.add('R13.8' if _i < _mark else 'R13.11', (_o.module, _o.qualname), _o.construct, _o.status, _o.message,
+                    _o.lineno, _o.detail)
+    rep.rule('R13.11', 'the class-level table of Comparable.__lt__ / __eq__ is the stated order and == agrees with it (C04 R4.1)')
     rep.rule('R13.8', 'derived comparison operators of Comparable are the stated functions of < and == (C04 R4.2)')
     if _n < 3:
         raise AnalysisError('anchor vanished: derived operators of Comparable (%d)' % _n)
@@ -404,12 +420,13 @@ def _forwarding(rep, fn, call, names):
 
 def _missing_cell(ctx, rep, fn):
     ok = False
-    for n in own_nodes(fn.node):
+    # (also inside a closure of the iterator: `def getvalue(row): try: return getv(row) except IndexError: return missing`)
+    for n in ast.walk(fn.node):
         if isinstance(n, ast.Try):
             for h in n.handlers:
                 if h.type is not None and 'IndexError' in norm(h.type):
                     for s in h.body:
-                        if isinstance(s, ast.Assign) and norm(s.value) == 'missing':
+                        if isinstance(s, (ast.Assign, ast.Return)) and s.value is not None and norm(s.value) == 'missing':
                             ok = True
     if ok:
         rep.held('R13.1', fn, 'missing cell', 'IndexError -> v = missing', fn.node)
